@@ -64,6 +64,7 @@ verus! {
 //@trusted build_result_archive
 //@trusted load_bdd_bundle
 //@trusted get_extended_symbolic_graph
+//@verify load_formulae
 //@verify analyse_formulae
 //@verify analyse_formula
 
